@@ -304,14 +304,15 @@ impl WaitingForRxWindow {
                             Rx::_1(time) => {
                                 let time_between_windows =
                                     mac.get_rx_delay(&self.frame, &Window::_2) - window_start;
+                                // the millisecond clock is a wrapping u32
                                 if time_between_windows > radio.get_rx_window_duration_ms() {
-                                    time + radio.get_rx_window_duration_ms()
+                                    time.wrapping_add(radio.get_rx_window_duration_ms())
                                 } else {
-                                    time + time_between_windows
+                                    time.wrapping_add(time_between_windows)
                                 }
                             }
                             // RxWindow2 can last however long
-                            Rx::_2(time) => time + radio.get_rx_window_duration_ms(),
+                            Rx::_2(time) => time.wrapping_add(radio.get_rx_window_duration_ms()),
                         };
                         (
                             State::WaitingForRx(WaitingForRx {
@@ -399,7 +400,7 @@ impl WaitingForRx {
                     Rx::_1(t1) => {
                         let time_between_windows = mac.get_rx_delay(&self.frame, &Window::_2)
                             - mac.get_rx_delay(&self.frame, &Window::_1);
-                        let t2 = t1 + time_between_windows;
+                        let t2 = t1.wrapping_add(time_between_windows);
                         // TODO: jump to RxWindow2 if t2 == now
                         (
                             State::WaitingForRxWindow(WaitingForRxWindow {
@@ -457,7 +458,8 @@ fn data_rxwindow1_timeout<R: radio::PhyRxTx + Timings, const N: usize>(
     timestamp_ms: u32,
 ) -> (State, Result<Response, super::Error<R>>) {
     let delay = mac.get_rx_delay(&frame, &Window::_1);
-    let t1 = (delay as i32 + timestamp_ms as i32 + radio.get_rx_window_offset_ms()) as u32;
+    // the millisecond clock is a wrapping u32: the window time wraps with it
+    let t1 = timestamp_ms.wrapping_add(delay).wrapping_add_signed(radio.get_rx_window_offset_ms());
     (
         State::WaitingForRxWindow(WaitingForRxWindow { frame, rx_windows, window: Rx::_1(t1) }),
         Ok(Response::TimeoutRequest(t1)),
